@@ -477,7 +477,7 @@ def run(ctx, model_ok=True, proofs_broken=False):
         c_outs = []
         pos = 0
         for sc in scripts:
-            c_outs.append(co[pos:pos + len(sc)])
+            c_outs.append((sc, co[pos:pos + len(sc)]))
             pos += len(sc)
         nlines = len(lines)
         san = lib.san_reports(ce)
@@ -485,7 +485,7 @@ def run(ctx, model_ok=True, proofs_broken=False):
     oracle_fail = []
     distinct = set()
     families = {}
-    for sc, outs in zip(scripts, c_outs):
+    for sc, outs in c_outs:
         st = {"ring": RefRing(), "table": RefTable()}
         for line, got in zip(sc, outs):
             fam = " ".join(line.split(" ")[:2])
@@ -500,6 +500,9 @@ def run(ctx, model_ok=True, proofs_broken=False):
     for f in oracle_fail:
         ctx.violation("oracle-abstract-type", f, found_input=True)
     for d in disagreements:
+        if d.get("crash"):
+            ctx.violation("crash", d, found_input=bool(d.get("script")))
+            continue
         # a disagreement model/impl: is it a property failure? evaluate the oracle on the shrunk script
         st = {"ring": RefRing(), "table": RefTable()}
         bad = None
